@@ -15,7 +15,12 @@ for m in ms:
     s = open(p).read()
     if s.count(m["search"]) != 1:
         print(f"SKIP  {m['name']}: search text occurs {s.count(m['search'])} times"); bad += 1; shutil.rmtree(d); continue
-    open(p, "w").write(s.replace(m["search"], m["replace"]))
+    s = s.replace(m["search"], m["replace"])
+    if m.get("search2"):
+        if s.count(m["search2"]) != 1:
+            print(f"SKIP  {m['name']}: search2 text occurs {s.count(m['search2'])} times"); bad += 1; shutil.rmtree(d); continue
+        s = s.replace(m["search2"], m["replace2"])
+    open(p, "w").write(s)
     env = dict(os.environ, VERIF_REPO=d)
     r = subprocess.run([os.path.join(VERIF, "check"), m["prop"], "--only", m.get("engines", "V")], capture_output=True, env=env, cwd=VERIF)
     out = r.stdout.decode()
